@@ -110,8 +110,61 @@ struct AotCWhole {
     localized: Arc<Vec<(isize, usize)>>,
 }
 
+/// Verification hook (`--cfg veryl_verif`): makes the hand-over from the JIT to the
+/// asynchronously compiled C code happen at a chosen dispatch attempt instead of whenever the
+/// background compile happens to finish.  Inert until `set_ready_at` is called.
+#[cfg(veryl_verif)]
+pub mod verif_swap {
+    use std::sync::atomic::{AtomicI64, Ordering};
+
+    static READY_AT: AtomicI64 = AtomicI64::new(i64::MIN);
+    static ATTEMPTS: AtomicI64 = AtomicI64::new(0);
+
+    /// `k >= 0`: the first `k` dispatch attempts of this process report `NotReady`, the next
+    /// one waits for the compiled module; `k < 0` (but not `i64::MIN`): never ready.
+    pub fn set_ready_at(k: i64) {
+        READY_AT.store(k, Ordering::SeqCst);
+        ATTEMPTS.store(0, Ordering::SeqCst);
+    }
+
+    pub fn attempts() -> i64 {
+        ATTEMPTS.load(Ordering::SeqCst)
+    }
+
+    /// `None`: hook inert.  `Some(false)`: report `NotReady`.  `Some(true)`: wait for the cell.
+    pub(super) fn gate() -> Option<bool> {
+        let k = READY_AT.load(Ordering::SeqCst);
+        if k == i64::MIN {
+            return None;
+        }
+        let n = ATTEMPTS.fetch_add(1, Ordering::SeqCst);
+        Some(k >= 0 && n >= k)
+    }
+}
+
+#[cfg(veryl_verif)]
+impl AotCWhole {
+    fn verif_gate(&self) -> bool {
+        match verif_swap::gate() {
+            None => true,
+            Some(false) => false,
+            Some(true) => {
+                let start = std::time::Instant::now();
+                while self.cell.get().is_none() && start.elapsed().as_secs() < 120 {
+                    std::thread::sleep(std::time::Duration::from_millis(5));
+                }
+                true
+            }
+        }
+    }
+}
+
 impl CompiledWhole for AotCWhole {
     fn try_dispatch(&self, ff: *const u8, comb: *mut u8, log: *mut u8) -> DispatchOutcome {
+        #[cfg(veryl_verif)]
+        if !self.verif_gate() {
+            return DispatchOutcome::NotReady;
+        }
         match self.cell.get() {
             Some(m) => {
                 // SAFETY: caller provides pointers valid for the
@@ -128,6 +181,10 @@ impl CompiledWhole for AotCWhole {
     }
 
     fn try_dispatch_const(&self, ff: *const u8, comb: *mut u8, log: *mut u8) -> DispatchOutcome {
+        #[cfg(veryl_verif)]
+        if !self.verif_gate() {
+            return DispatchOutcome::NotReady;
+        }
         match self.cell.get() {
             Some(m) => {
                 if let Some(f) = m.const_func {
